@@ -20,6 +20,7 @@ Line-protocol driver for C10 and C09 (exe `nv_c10`).
   (ref.mems cfg (tsdoc …) ((target "TypeName" (J…))…)) → (ok (BOOL…)…)
   (coerce cfg (tsdoc …) ((vardef …)…) (J…))          → (ok (COERCIBLE…) (EXPLICIT…) (EXPLICIT if option on…) (EXPLICIT if option off…))
   (scalar.get SC target)                             → (ok "text")
+  (scalar.table cfg (tsdoc …))                       → (ok ("N" "ro" "ri" "oo" "oi")…)   model of get_scalar_types
 -/
 import NitroVerif.Base.Sexp
 import NitroVerif.Gql.Codec
@@ -178,6 +179,15 @@ def handle : Sexp → Sexp
   | .list [.atom "scalar.get", sc, t] =>
     match decScalar (match sc with | .list (h :: r) => .list (h :: .str "_" :: r) | x => x), decTarget t with
     | some (_, sc), some t => Sexp.ok [.str (sc.getType t)]
+    | _, _ => Sexp.err "decode"
+  | .list [.atom "scalar.table", c, d] =>
+    -- `get_scalar_types` of the model: one row per scalar definition that has a type (config / built-in first,
+    -- `@nitrogql_ts_type` directive second)
+    match decCfg c, Gql.Dec.tsDoc d with
+    | some c, some d =>
+      Sexp.ok ((DeclCfg.scalarTypes c d).map fun (n, s) =>
+        .list [.str n, .str (s.getType .resolverOutput), .str (s.getType .resolverInput),
+               .str (s.getType .operationOutput), .str (s.getType .operationInput)])
     | _, _ => Sexp.err "decode"
   | .list [.atom "flush"] => .list [.atom "flushed"]
   | _ => .list [.atom "bad-request"]
